@@ -27,3 +27,49 @@ OVERLAYS = [
     {'name': 'keep: mask bound to another name', 'kind': 'keep',
      'edits': [(MOLECULE, MASK, "        unique_maximum = (v == v[np.arange(v.shape[0]), majority_base_indices][:, np.newaxis]).sum(1) == 1\n        proper = unique_maximum\n")]},
 ]
+
+# the majority step written as a per-position loop (the scalar twin of the vectorised block), with one knob per mutation
+VEC = """        locations = np.empty(len(consensii), dtype=object)
+        locations[:] = sorted(list(consensii.keys()))
+
+        v = np.vstack([ consensii[location] for location in locations])
+        majority_base_indices = np.argmax(v, axis=1)
+
+        # Check if there is ties, this result in multiple hits for argmax (majority_base_indices),
+        # such a situtation is of course terrible and should be dropped
+        proper = (v == v[np.arange(v.shape[0]), majority_base_indices][:, np.newaxis]).sum(1) == 1
+
+        if with_probs_and_obs:
+            return (
+                dict(zip(locations[proper], ['ACGTN'[idx] for idx in majority_base_indices[proper]])),
+                phred_scores,
+                consensii
+            )
+        else:
+            return  dict(zip(locations[proper], ['ACGTN'[idx] for idx in majority_base_indices[proper]]))
+"""
+
+
+def scalar(tie="(votes == votes[winner]).sum() != 1", pick="int(np.argmax(votes))", keys="sorted(consensii)", extra=""):
+    return f"""        consensus = dict()
+        for location in {keys}:
+            votes = consensii[location]
+            winner = {pick}
+            if {tie}:
+                continue
+            consensus[location] = 'ACGTN'[winner]
+{extra}        if with_probs_and_obs:
+            return consensus, phred_scores, consensii
+        return consensus
+"""
+
+
+OVERLAYS += [
+    {'name': 'keep: per-position loop form of the majority step', 'kind': 'keep', 'edits': [(MOLECULE, VEC, scalar())]},
+    {'name': 'keep: per-position loop, tie test via count of the maximum', 'kind': 'keep', 'edits': [(MOLECULE, VEC, scalar(tie="sum(votes == max(votes)) > 1"))]},
+    {'name': 'loop form: ties keep the first maximum', 'kind': 'break', 'rules': ['C13-R1'], 'edits': [(MOLECULE, VEC, scalar(tie="(votes == votes[winner]).sum() < 1"))]},
+    {'name': 'loop form: absolute majority required', 'kind': 'break', 'rules': ['C13-R1'], 'edits': [(MOLECULE, VEC, scalar(tie="2 * votes[winner] <= votes.sum()"))]},
+    {'name': 'loop form: least voted base called', 'kind': 'break', 'rules': ['C13-R1'], 'edits': [(MOLECULE, VEC, scalar(pick="int(np.argmin(votes))", tie="False"))]},
+    {'name': 'loop form: consensus pre-filled without the tie test', 'kind': 'break', 'rules': ['C13-R1'],
+     'edits': [(MOLECULE, VEC, scalar(extra="        consensus.update({k: 'ACGTN'[int(np.argmax(x))] for k, x in consensii.items()})\n"))]},
+]
